@@ -197,7 +197,8 @@ def main():
     from pyvc.engine import Obligation
     import z3
 
-    fns = [q for q, c in R.CONTRACTS.items() if pid in c.props and not c.inline and not c.trusted]
+    fns = [q for q, c in R.CONTRACTS.items() if pid in c.props and not c.inline and not c.trusted and (args.tier != "quick" or getattr(c, "tier", None) != "thorough")]
+    thorough_only = sorted(q for q, c in R.CONTRACTS.items() if pid in c.props and getattr(c, "tier", None) == "thorough")
     if args.only:
         fns = [q for q in fns if args.only in q]
     fns.sort()
@@ -325,7 +326,8 @@ def main():
 
     if args.write_baseline and not args.only:
         os.makedirs(os.path.dirname(base_path), exist_ok=True)
-        json.dump({"property": pid, "obligations": dict(sorted(seen_obl.items()))}, open(base_path, "w"), indent=0)
+        keep = {k: v for k, v in baseline.items() if k.split("|")[0] in thorough_only and k not in seen_obl} if args.tier == "quick" else {}
+        json.dump({"property": pid, "obligations": dict(sorted(dict(keep, **seen_obl).items()))}, open(base_path, "w"), indent=0)
     elif baseline and not args.only:
         for okey, n0 in baseline.items():
             fn0 = okey.split("|")[0]
@@ -411,6 +413,7 @@ def main():
         "backends": backends,
         "solver_seconds": round(solver_s, 2),
         "functions_inlined_at_call_sites": sorted(inlined_all),
+        "functions_verified_in_the_thorough_tier_only": thorough_only,
         "dropped_statements": sorted(dropped_all)[:40],
         "dropped_statement_count": len(dropped_all),
         "scans": scan_results,
